@@ -6,6 +6,9 @@ M = core.MANAGER
 
 
 def check(ctx):
+    from . import core8
+
+    core8.relation_defaults(ctx, "C08")
     core.cg_priority_edges(ctx, "C08")
     core.cg_priority_passthrough(ctx, "C08")
     core.mgr_relation_copy(ctx, "C08")
